@@ -261,6 +261,12 @@ def run(tier, seed):
                [{"name": "o0", "cond": None, "assigns": [], "expect": None, "watches": [("a", "s0")]}],
                [("a", "1 t0=3", "match"), ("a", "2 t0=4", "match"), ("a", "3 t0=4", "match")])]
     cases = corpus + [gen_case(rng) for _ in range(n)]
+    # one case in three: the last pure observer is marked `only helps` (no plot box — its data points are still due)
+    for ci, (_, _, mems, _) in enumerate(cases):
+        obs = [m for m in mems if m.get("watches") and not m.get("expect") and not m.get("assigns")]
+        if ci % 3 == 1 and obs:
+            obs[-1]["only_helps"] = True
+            rep.count("observer marked `only helps`")
     for sigs, actors, members, lines in cases:
         text = cfg_text(sigs, actors, members)
         r = impl.call("audition", Args={"Parse": {"Text": text}, "EpochUnix": EPOCH, "WithCollector": True,
